@@ -3,13 +3,13 @@ CONSTANTS
   GPUs = {1, 2}
   Unit = 1
   PortCap = 1
-  MCFrames <- Frames3
+  MCFrames <- Frames2
   FrameChunks = 1
   MaxMig = 3
   Serial = FALSE
-  Requesters = {1}
-  MCPages <- PagesCtrl
-  SkipZero = FALSE
-  AcceptGuard = "slot"
+  Requesters = {1, 2}
+  MCPages <- Pages1
+  SkipZero = TRUE
+  AcceptGuard = "handling"
 INVARIANTS TypeOK ContentsCopied NothingElseChanged CompleteOnce OneAtATime RoutedBack InRange AllServed
 CHECK_DEADLOCK FALSE
